@@ -12,7 +12,8 @@ close() is called - a handle that is merely dropped stays open, as on an OS with
 `handlelimiter.time` is replaced by a strictly increasing counter in scenario replays so that the least-recently-written
 order of prune() is the one of the write sequence (real clocks can tie); random runs keep the real clock.
 
-Event "run":  {ev, tid, src: gen|fq|rand|fqrand, method, K, mh, pe, bad, tfs,
+Files of an earlier run: the paths listed in `stale` exist before the run and hold the single record 0.
+Event "run":  {ev, tid, src: gen|fq|rand|fqrand, method, K, mh, pe, bad, tfs, stale,
                ops:[{op:"w"|"c", p, x, raised, att:[{p, append, nopen, ok}], open:[paths with an OS descriptor],
                      tracked:[paths with a handle in openHandles]}],
                final:[{p, recs:[..], ok}], fds_end, exp:{has, ops:[{raised, open}], disk:[[..]..]}}
@@ -192,8 +193,16 @@ def run_scenario(hl_mod, fh_mod, workdir, scn, src, method, det_clock):
     def path_id(path):
         return ids.get(path, 0)
 
-    for p in set(o['p'] for o in scn['ops'] if o['op'] == 'w') | ({scn['bad']} if scn['bad'] else set()):
+    for p in set(o['p'] for o in scn['ops'] if o['op'] == 'w') | ({scn['bad']} if scn['bad'] else set()) | set(scn.get('stale', [])):
         ids[path_of(p)] = p
+    # files of an "earlier run" that already exist at some target paths: one stale record 0
+    for p in scn.get('stale', []):
+        if via_fq or method == 1:
+            with REAL_GZIP_OPEN(path_of(p), 'wb') as g:
+                g.write(b'0\n')
+        else:
+            with REAL_OPEN(path_of(p), 'w') as g:
+                g.write('0\n')
     inj = Injector(scn['K'], path_of(scn['bad']) if scn['bad'] else None, scn['tfs'], path_id)
     hl_mod.gzip = GzipShim(inj)
     hl_mod.open = inj.plain_open
@@ -258,7 +267,8 @@ def random_scenario(rng, big):
             ops.append({'op': 'w', 'p': p, 'x': i + 1})
     for _ in range(rng.choice([0, 0, 1, 1, 2, 3])):
         tfs.add(rng.randint(1, n + 2))
-    return {'K': K, 'mh': mh, 'pe': pe, 'bad': bad, 'tfs': sorted(tfs), 'ops': ops}
+    stale = sorted(p for p in range(1, npaths + 1) if rng.random() < 0.4) if rng.random() < 0.7 else []
+    return {'K': K, 'mh': mh, 'pe': pe, 'bad': bad, 'tfs': sorted(tfs), 'ops': ops, 'stale': stale}
 
 
 def split_case(rng, workdir, k):
@@ -339,7 +349,7 @@ def main():
 
         def header(scn, src, method):
             return {'ev': 'run', 'tid': tid, 'src': src, 'method': method, 'K': scn['K'], 'mh': scn['mh'], 'pe': scn['pe'],
-                    'bad': scn['bad'], 'tfs': sorted(scn['tfs'])}
+                    'bad': scn['bad'], 'tfs': sorted(scn['tfs']), 'stale': sorted(scn.get('stale', []))}
 
         # 1. TLC-generated behaviours of the design (spec -> code)
         scns = json.load(REAL_OPEN(scn_file)) if scn_file else []
